@@ -58,7 +58,12 @@ func (c *Conversation) fragment(data encodedMessage, fraglen uint16) []ValidMess
 	ret := make([]ValidMessage, numFragments)
 	for i := 0; i < numFragments; i++ {
 		prefix := c.version.fragmentPrefix(i, numFragments, c.ourInstanceTag, c.theirInstanceTag)
-		ret[i] = append(append(prefix, fragmentData(data, i, realFraglen, uint16(l))...), fragmentSeparator[0])
+		// offsets are computed as int: a message may be longer than 65535 bytes
+		start, end := i*int(realFraglen), (i+1)*int(realFraglen)
+		if end > l {
+			end = l
+		}
+		ret[i] = append(append(prefix, data[start:end]...), fragmentSeparator[0])
 	}
 	return ret
 }
